@@ -722,6 +722,14 @@ def run(rep, tier):
         clause_g(facts, rep)
         clause_h(facts, rep)
         clause_dead_slots(facts, rep)
+    # 'released exactly once' for the container mutation API: the bounded exploration of C12 with its allocation ledger
+    # (freeing-allocator instantiation): a double release is undefined behaviour in the model, what is still live after
+    # the final destroy() is a leak
+    from . import c12 as _c12
+    try:
+        _c12.clause_model(get_facts('K1'), rep, tier, kinds=('free',))
+    except AnalysisBroken as ex:
+        rep.broken.append(str(ex))
     rep.trust('clang 14 front end', 'clang -verify for the compile-fail witnesses', 'libc realloc/free')
     rep.assumptions += [
         'decides type-level copy prohibition, raw-move pairing, destroy-before-overwrite with provenance, the arms of destroy() the discipline of owning raw-pointer fields and the completeness of Swap / move transfers of the document buffers (freeing-allocator instantiations)',
